@@ -11,6 +11,7 @@ import (
 	"github.com/prometheus/client_golang/prometheus"
 
 	"github.com/jdillenkofer/pithos/internal/storage"
+	"github.com/jdillenkofer/pithos/internal/storage/database"
 	repositoryfactory "github.com/jdillenkofer/pithos/internal/storage/database/repository"
 	"github.com/jdillenkofer/pithos/internal/storage/outbox"
 	"github.com/jdillenkofer/pithos/verif/mc/ev"
@@ -168,7 +169,7 @@ func c21Converged(c *sx.StepCtx) []sx.Diff {
 
 func c21Alphabet(m *sx.Model, stack string) []sx.Op {
 	var ops []sx.Op
-	ops = append(ops, sx.Op{Kind: "WorkerStep"})
+	ops = append(ops, sx.Op{Kind: "WorkerStep"}, sx.Op{Kind: "GhostClaim"})
 	for _, b := range []string{"bka", "bkb"} {
 		if m.Buckets[b] == nil {
 			ops = append(ops, sx.Op{Kind: "CreateBucket", B: b})
@@ -221,7 +222,18 @@ func init() {
 		},
 		WorkerStep: func(w *world.World, under storage.Storage) {
 			outbox.ProcessOnce(context.Background(), c21Current[w].Storage)
-		}})
+		},
+		// what a worker that died right after claiming leaves behind: the head entry leased to an
+		// owner that will never come back (the lease, 30 s, has to run out before anyone may touch it)
+		EnvOps: map[string]func(w *world.World, under storage.Storage){"GhostClaim": func(w *world.World, _ storage.Storage) {
+			repo := mustV(repositoryfactory.NewStorageOutboxEntryRepository(w.DB))
+			ctx := context.Background()
+			must(database.WithTx(ctx, w.DB, nil, func(ctx context.Context, tx database.Tx) error {
+				now := time.Now()
+				_, _, err := repo.ClaimFirstStorageOutboxEntry(ctx, tx.SqlTx(), "sob", "sob:ghost", now, now.Add(30*time.Second))
+				return err
+			}))
+		}}})
 }
 
 func TestC21(t *testing.T) {
